@@ -307,6 +307,12 @@ def run_check(pid, tier="quick", seed=0, replay=None):
         "wall_s": round(time.time() - t0, 2),
         "violations": len(violations),
     }
+    extra_cov = getattr(cfg, "evidence_extra", None)
+    if extra_cov:
+        try:
+            ev["coverage"].update(extra_cov(dict(tier=tier, work=work)))
+        except Exception:
+            ev["coverage"]["notes"].append(traceback.format_exc()[-800:])
     core.write_evidence(pid, ev)
     return 1 if violations else 0
 
